@@ -337,16 +337,10 @@ Fixpoint fix_blocks (l : list block) (total : ztime) : list block :=
   | b :: ((n :: _) as r) => set_dur_if_not_equal b (subtract_times (rtime_of n) (rtime_of b)) :: fix_blocks r total
   end.
 
-Definition fix_durations (d : positive) (len : option ztime) : M unit :=
-  fun s =>
-    match get_doc s d with
-    | None => (s, inr BadHandle)
-    | Some x =>
-        match members x KProg, len with
-        | [], None => (s, inr OtherExn)      (* "No audio programme present, cannot guess length" *)
-        | _, _ =>
-            (* phase 1: effective duration of every channel format reached from a programme *)
-            let per_programme (p : positive) : (list (idkey * ztime)) + exn :=
+(* phase 1 of updateBlockFormatDurations: the effective duration of every channel format reached from a programme;
+   reads the state only *)
+Definition dur_phase1 (s : state) (x : doc) (len : option ztime) : (list (idkey * ztime)) + exn :=
+  let per_programme (p : positive) : (list (idkey * ztime)) + exn :=
               match get_elem s p with
               | None => inr BadHandle
               | Some pe =>
@@ -377,7 +371,7 @@ Definition fix_durations (d : positive) (len : option ztime) : M unit :=
                       end
                   end
               end in
-            let all := fold_left (fun acc p =>
+  let all := fold_left (fun acc p =>
                                     match acc with
                                     | inr e => inr e
                                     | inl m =>
@@ -395,7 +389,18 @@ Definition fix_durations (d : positive) (len : option ztime) : M unit :=
                                                          end) pm (inl m)
                                         end
                                     end) (members x KProg) (inl []) in
-            match all with
+  all.
+
+Definition fix_durations (d : positive) (len : option ztime) : M unit :=
+  fun s =>
+    match get_doc s d with
+    | None => (s, inr BadHandle)
+    | Some x =>
+        match members x KProg, len with
+        | [], None => (s, inr OtherExn)      (* "No audio programme present, cannot guess length" *)
+        | _, _ =>
+            (* phase 1: effective duration of every channel format reached from a programme *)
+            match dur_phase1 s x len with
             | inr e => (s, inr e)
             | inl durations =>
                 (* phase 2: document->lookup(id), then rewrite the vector of the channel format's own type *)
